@@ -296,3 +296,14 @@ def _tls(ctx: Context, tree: str, N: Names) -> None:
             rep.ob("C10.R6", fkey(tree, f, "ssl_object-source"), src == ["stream.get_extra_info('ssl_object')"] and sarg == ["stream"], where(f, c),
                    f"ssl_object <- {src}; connection built on stream={sarg}")
     rep.floor("C10.R6", f"HTTP/2 connection constructions ({tree})", nsel, 3)
+
+
+_core_run = run
+
+
+def run(ctx: Context) -> None:  # noqa: F811
+    _core_run(ctx)
+    from . import plumb
+
+    ctx.rep.rule('C10.R8', 'TLS configuration, protocol flags, origins and the connect target (uds / local_address) reach every connection unchanged (store link + pass link at every constructor call)')
+    plumb.plumbing(ctx, 'C10.R8', ['ssl_context', 'proxy_ssl_context', 'http1', 'http2', 'origin', 'remote_origin', 'proxy_origin', 'uds', 'local_address'])
